@@ -187,9 +187,15 @@ func (rt *runtime) cmplEvaluateNodeForInStatement(node *nodeForInStatement) Valu
 
 	result := emptyValue
 	obj := sourceObject
+	// Names of the own properties (enumerable or not) of the objects already
+	// visited: they shadow properties of the same name further up the chain.
+	visited := map[string]bool{}
 	for obj != nil {
 		enumerateValue := emptyValue
 		obj.enumerate(false, func(name string) bool {
+			if visited[name] {
+				return true
+			}
 			into := rt.cmplEvaluateNodeExpression(into)
 			// In the case of: for (var abc in def) ...
 			if into.reference() == nil {
@@ -219,13 +225,17 @@ func (rt *runtime) cmplEvaluateNodeForInStatement(node *nodeForInStatement) Valu
 			}
 			return true
 		})
-		if obj == nil {
-			break
-		}
-		obj = obj.prototype
 		if !enumerateValue.isEmpty() {
 			result = enumerateValue
 		}
+		if obj == nil {
+			break
+		}
+		obj.enumerate(true, func(name string) bool {
+			visited[name] = true
+			return true
+		})
+		obj = obj.prototype
 	}
 	return result
 }
